@@ -201,6 +201,19 @@ Definition open_client_gen (guards : bool) (key data : bytes) : outcome emsg :=
 Definition open_client := open_client_gen true.
 Definition open_client_pinned := open_client_gen false.
 
+(* A receive HISTORY: the calls (auth key, packet) made to DeserializeEncrypted by one process,
+   in order, and what each returned.  In the model the result of call n is a function of call n's
+   arguments alone and a returned message is a value - there is no package-level state and no
+   aliasing.  Go code can break both without changing any single-call result: a shared output
+   buffer reused across calls together with a body returned as a sub-slice of it lets a LATER
+   packet (honest or forged) overwrite an EARLIER accepted message; a deserialiser could also
+   write into its input.  So "the implementation follows this definition" is tied to the code by
+   the SEQUENCE correspondence of the checks (harness/root/cmd/c03 seqCases: every returned message
+   object and every input buffer is kept and re-read after each later call, directly and through
+   transport.ReadMsg), not by single calls. *)
+Definition receive_history (calls : list (bytes * bytes)) : list (outcome emsg) :=
+  map (fun c => open_client (fst c) (snd c)) calls.
+
 (* transport.ReadMsg after the frame has been read (the 4-byte error-code case is C08's) *)
 Inductive anymsg := AEnc (m : emsg) | AUn (m : umsg).
 Definition any_msgid (m : anymsg) : N := match m with AEnc m => e_msgid m | AUn m => u_msgid m end.
